@@ -98,7 +98,11 @@ def case(draw):
         levels[linked]['m'] = 'symlink'
     return {'names': names, 'levels': levels, 'start': start,
             'allow_compressed': draw(st.booleans()),
-            'allow_xdev': allow_xdev, 'linked': linked}
+            'allow_xdev': allow_xdev, 'linked': linked,
+            # ask with a path relative to a working directory at or above
+            # the start directory (None: absolute path)
+            'cwd_level': draw(st.sampled_from(
+                [None, None] + list(range(0, start + 1))))}
 
 
 def strat(tier):
@@ -211,9 +215,19 @@ def run_case(desc):
         start = paths[desc['start']]
         exp, flags = reference(start, desc['allow_xdev'],
                                desc['allow_compressed'])
-        oc = gem.call(find_top_level_manifest, start,
-                      allow_xdev=desc['allow_xdev'],
-                      allow_compressed=desc['allow_compressed'])
+        ask = start
+        old_cwd = os.getcwd()
+        if desc.get('cwd_level') is not None:
+            os.chdir(paths[desc['cwd_level']])
+            ask = os.path.relpath(start, paths[desc['cwd_level']])
+        try:
+            oc = gem.call(find_top_level_manifest, ask,
+                          allow_xdev=desc['allow_xdev'],
+                          allow_compressed=desc['allow_compressed'])
+            if oc.kind == 'return' and oc.value:
+                oc.value = os.path.abspath(oc.value)
+        finally:
+            os.chdir(old_cwd)
         classes = [f'manifests:{min(nman, 3)}',
                    'xdev-allowed' if desc['allow_xdev'] else 'xdev-forbidden']
         if need_mount:
@@ -222,7 +236,10 @@ def run_case(desc):
                         for l in desc['levels'] for i in l['ign'])
         if lookalike:
             classes.append('lookalike-ignore')
-        what = (f'find_top_level_manifest(depth {desc["start"]}, '
+        if desc.get('cwd_level') is not None:
+            classes.append('relative-start-path')
+        what = (f'find_top_level_manifest({ask!r} from cwd level '
+                f'{desc.get("cwd_level")}, depth {desc["start"]}, '
                 f'allow_xdev={desc["allow_xdev"]}, '
                 f'allow_compressed={desc["allow_compressed"]})')
         if 'unparsable' in flags:
@@ -263,6 +280,24 @@ def run_case(desc):
                 os.stat(got).st_dev != os.stat(start).st_dev:
             return violation(f'{what} returned {got_lex} on another device',
                              sig='other-device-returned', classes=classes)
+        # ask again after the answer changed: remove the Manifest that was
+        # returned (no state may survive between two searches)
+        if got and desc['linked'] is None:
+            os.unlink(got)
+            exp2, flags2 = reference(start, desc['allow_xdev'],
+                                     desc['allow_compressed'])
+            oc2 = gem.call(find_top_level_manifest, start,
+                           allow_xdev=desc['allow_xdev'],
+                           allow_compressed=desc['allow_compressed'])
+            if not flags2 and oc2.kind == 'return':
+                got2 = os.path.realpath(oc2.value) if oc2.value else None
+                exp2r = os.path.realpath(exp2) if exp2 else None
+                if got2 != exp2r:
+                    return violation(
+                        f'{what}: after removing {got_lex!r} a second search '
+                        f'returned {oc2.value!r}, expected {exp2!r}',
+                        sig='stale-second-search', classes=classes)
+            classes.append('searched-twice')
         nontrivial = nman >= 2 or lookalike or need_mount
         return ok(nontrivial=nontrivial, classes=classes)
     finally:
